@@ -228,7 +228,7 @@ func judgeAgainstGeneration(sc *SrvScenario, h *SrvHistory, res *core.Result) {
 		if q.Resp.Truncated && want != nil && want.Truncated {
 			continue // which records survive truncation depends on value order (see C12)
 		}
-		d = diffResponses(q.Resp, want, gen.Weighted(q.Q.Q))
+		d = diffResponses(q.Resp, want, gen.Weighted(q.Q.Q), gen.WeightedExtra(q.Q.Q))
 		if d == "" {
 			res.Probe("response_equals_its_generation")
 			continue
